@@ -78,7 +78,15 @@ func (g *c05Gen) expr(c *gChart, allDefs []string) string {
 	if len(allDefs) > 0 && g.chance(8) {
 		def = allDefs[g.r.Intn(len(allDefs))]
 	}
-	switch g.r.Intn(46) {
+	switch g.r.Intn(50) {
+	case 46:
+		return ".Capabilities.APIVersions.Has \"c05.example/v1\""
+	case 47:
+		return "printf \"%v/%v/%d\" (.Capabilities.APIVersions.Has \"c05.example/v2\") (.Capabilities.APIVersions.Has \"other.io/v1beta1\") (len .Capabilities.APIVersions)"
+	case 48:
+		return "printf \"%s.%s\" .Capabilities.KubeVersion.Major .Capabilities.KubeVersion.Minor"
+	case 49:
+		return "ternary \"new-api\" \"old-api\" (.Capabilities.APIVersions.Has \"c05.example/v1\")"
 	case 0:
 		return ".Values.str"
 	case 1:
@@ -636,6 +644,17 @@ func c05GenChart(r *rand.Rand) c05Case {
 		c.EnableDNS = true // nothing asks for a name: the switch must not matter
 	}
 	c.SkipSchema = r.Intn(12) == 0
+	if r.Intn(2) == 0 {
+		pool := []string{"c05.example/v1", "c05.example/v2", "other.io/v1beta1", "c05.example/v1/Widget"}
+		for _, a := range pool {
+			if r.Intn(2) == 0 {
+				c.APIVersions = append(c.APIVersions, a)
+			}
+		}
+	}
+	if r.Intn(3) == 0 {
+		c.KubeVersion = g.pick("v1.27.3", "v1.31.0", "v1.20.15-gke.1")
+	}
 	return c
 }
 
